@@ -51,6 +51,13 @@ def generate(rng):
     pid = "m%d" % i
     programs[pid] = {"module": "main", "src": src, "deps": deps, "exports": ex}
     mains.append(pid)
+  if rng.random() < 0.4:
+    cp = proggen.corpus_program(rng, os.path.abspath(os.environ.get("VERIF_REPO", "/repo")))
+    if cp is not None:
+      pid = "k0"
+      programs[pid] = {"module": "main", "src": cp[1], "deps": [],
+                       "exports": {}, "corpus": cp[0]}
+      mains.append(pid)
   # request pool
   pool = []
   opt_variants = [{"quick": True}, {}, {"quick": True, "analyze_annotated": True},
